@@ -180,6 +180,55 @@ def _site(err) -> str:
     return site
 
 
+def _edges(segment) -> list:
+    """Canonical multiset of the subscriptions between the members of a segment: publisher (tag, shape), the publisher's
+    OUTPUT PORT INDEX, subscriber (tag, shape), kind and index of the subscribed input port."""
+    from forml import flow
+
+    # the members of the segment: everything reachable from its head through apply-mode subscriptions (what a copy copies)
+    head = tuple(segment)[0]
+    nodes, todo, members = [], [head], set()
+    while todo:
+        node = todo.pop()
+        if id(node) in members:
+            continue
+        members.add(id(node))
+        nodes.append(node)
+        for subs in node.output:
+            todo.extend(sub.node for sub in subs if type(sub.port).__name__ == 'Apply')
+
+    def name(node):
+        return ('w', pg.node_tag(node), node.szin, node.szout) if isinstance(node, flow.Worker) else ('f', node.szin, node.szout)
+
+    def index(prt):
+        try:
+            return int(prt)
+        except (TypeError, ValueError):
+            return -1
+
+    out = []
+    for node in nodes:
+        for i, subs in enumerate(node.output):
+            for sub in subs:
+                if id(sub.node) in members and type(sub.port).__name__ == 'Apply':
+                    out.append(repr((name(node), i, name(sub.node), type(sub.port).__name__, index(sub.port))))
+    return sorted(out)
+
+
+def _copy_check(trunk) -> list:
+    """`Segment.copy` (what the ensembler does per fold and the evaluation stage per run) of each segment of an expanded
+    trunk, twice: the copy must have the topology of the original, publisher port indices included."""
+    bad = []
+    for name, segment in (('apply', trunk.apply),):  # (a copy is bounded by the tail: train / label segments carry side branches)
+        want = _edges(segment)
+        for attempt in range(2):
+            got = _edges(segment.copy())
+            if got != want:
+                bad.append([name, attempt, [e for e in want if e not in got][:3], [e for e in got if e not in want][:3]])
+                break
+    return bad
+
+
 def impl(ast):
     """`_impl`, an exception of the real code mapped to ('exception', class, message, site)."""
     try:
@@ -206,6 +255,7 @@ def _impl(ast):
     del comp
     expr = ax.build(ast)
     first, second = expr.expand(), expr.expand()
+    out['copy'] = _copy_check(expr.expand())
     g1, n1 = _expansion_groups(first)
     g2, n2 = _expansion_groups(second)
     out['indep'] = {
@@ -496,6 +546,7 @@ class C03(fw.Check):
             seq = [rng.choice(customs) if rng.random() < 0.5 else rng.choice(extended) for _ in range(n)]
             seq[rng.randrange(n)] = rng.choice(customs)
             out.extend(ax.retag(t) for t in pg.parenthesisations(seq))
+        out.extend(self._branching(gen, extended))
         cases = []
         for ast in out:
             key = sexp.dumps(ast)
@@ -556,6 +607,51 @@ class C03(fw.Check):
                 trees = rng.sample(trees, 5)
             out.extend(ax.retag(t) for t in trees)
         return out
+
+    def _branching(self, gen, extended) -> list:
+        """Operators whose sub-graph contains a MULTI-OUTPUT worker (split -> arms on output ports 0..n-1 -> merge, see
+        props/c03_api.py) alone, between mappers, and in every position that gets copied: in the scope of an ensemble
+        (left of `>> FullStack`), inside a base, both, and behind an ensemble; random mixtures in every parenthesisation."""
+        rng = self.rng
+        out = []
+
+        def br():
+            return ax.branch_leaf(rng)
+
+        fixed = ['api', 'branch', 0, 2, [[0, 0], [0, 1]], 0]
+        for form in (fixed, ['api', 'branch', 0, 3, [[0, 2], [0, 0]], 0], ['api', 'branch', 0, 2, [[0, 1]], 0]):
+            out.append(form)
+            out.append(_seq(_w(), form, _w()))
+            out.append(_seq(form, _stk([_w()])))
+            out.append(_seq(_w(), form, _stk([_w()])))
+            out.append(['seq', _w(), ['seq', form, _stk([_w()])]])
+            out.append(_stk([form]))
+            out.append(_stk([_seq(_w(), form)]))
+            out.append(_stk([_seq(form, _w()), _w(False)], 3))
+            out.append(_seq(_stk([_w()]), form))
+            out.append(_seq(form, _stk([form])))
+            out.append(_seq(_lab(), form, _stk([_w()])))
+        for _ in range(self.n(16, 300)):
+            r = rng.random()
+            other = (lambda: rng.choice(extended[:-1]) if rng.random() < 0.6 else gen.leaf(1))
+            if r < 0.4:  # in the scope of an ensemble
+                items = [br(), _stk([gen.expr(rng.choice([1, 2]), depth=1, stack=False)], rng.choice([2, 2, 3]))]
+                if rng.random() < 0.6:
+                    items.insert(rng.randrange(2), other())
+            elif r < 0.75:  # in a base
+                base = rng.choice([br(), _seq(other(), br()), _seq(br(), other())])
+                bases = [base] + ([gen.expr(1, depth=1, stack=False)] if rng.random() < 0.3 else [])
+                items = [_stk(bases, rng.choice([2, 2, 3]))]
+                if rng.random() < 0.5:
+                    items.insert(0, other())
+            else:
+                items = [br() if rng.random() < 0.5 else other() for _ in range(rng.choice([2, 3]))]
+                items[rng.randrange(len(items))] = br()
+            trees = list(pg.parenthesisations(items))
+            if len(trees) > 3:
+                trees = rng.sample(trees, 3)
+            out.extend(trees)
+        return [ax.retag(t) for t in out]
 
     def _nested(self, gen) -> list:
         """Hand-picked nested ensembles (each also bare) + random ones: an inner ensemble in a base or in the scope of an
@@ -739,7 +835,22 @@ class C03(fw.Check):
             if mden.get(part) != spec[part]:
                 self.diverge(f'Lean denotation and Python oracle disagree on {part}', case, str(spec[part])[:400], str(mden.get(part))[:400])
                 ok = False
-        # oracle on the real code
+        return self._compare_oracle(ast, spec, real) and ok
+
+    def _compare_oracle(self, ast, spec, real) -> bool:
+        """Oracle on the real code (outputs, states, independence of expansions, faithfulness of segment copies)."""
+        ok = True
+        case = {'expr': ast}
+        if isinstance(real, tuple) and real and real[0] == 'exception':
+            site = real[3] if len(real) > 3 else '?'
+            self.violate(f'composition of a library expression raised {real[1]} in {site}: {real[2]}', case,
+                         f'exception-{real[1]}@{site}')
+            return False
+        if real.get('copy'):
+            self.violate(f'Segment.copy of a segment of the expanded expression has another topology than the original '
+                         f'(publisher output port / subscriber port of a subscription) ({ax.shape(ast)})', case, 'copy-topology',
+                         {'impl': str(real['copy'])[:500], 'spec': 'the edges of the original'})
+            ok = False
         for part, what in (('train', 'train-mode output'), ('apply', 'apply-mode output'), ('states', 'set of trained states')):
             if real[part] != spec[part]:
                 self.violate(f'{what} of the composed pipeline differs from the denotation of the expression ({ax.shape(ast)})',
@@ -773,13 +884,24 @@ class C03(fw.Check):
             self.notes.append(f'{oversize} generated expressions skipped: provenance terms above {SIZE_LIMIT} nodes')
         reals = pg.run_batch(impl, kept)
         lines = []
-        for ast in kept:
+        modelled = [ast for ast in kept if not ax.has_branch(ast)]
+        for ast in modelled:
             lines.append(sexp.dumps(['run', ax.to_library(ast)]))
             lines.append(sexp.dumps(['denote', ax.to_library(ast)]))
             lines.append(sexp.dumps(['bridge', [br.SRC_APPLY, br.SRC_TRAIN, br.SRC_LABEL], ax.to_library(ast)]))
         answers = self.model(lines)
         verdicts = []
-        for i, (ast, spec, real) in enumerate(zip(kept, specs, reals)):
+        i = -1
+        for ast, spec, real in zip(kept, specs, reals):
+            if ax.has_branch(ast):
+                # multi-output operators are outside the Lean expansion model: oracle + copy check on the real code
+                self._branch_count = getattr(self, '_branch_count', 0) + 1
+                if account:
+                    self.case(sexp.dumps(ast), f'leaves={min(ax.leaves(ast), 7)} multi-output ' + '+'.join(sorted(ax.kinds(ast))),
+                              nontrivial=True)
+                verdicts.append(self._compare_oracle(ast, spec, real))
+                continue
+            i += 1
             mrun = self._model_fields(answers[3 * i])
             mden = self._model_fields(answers[3 * i + 1])
             mseg = br.model_segments(sexp.loads(answers[3 * i + 2]))
@@ -834,6 +956,10 @@ class C03(fw.Check):
         counts = {f: self._feature_count.get(f, 0) for f in FEATURES}
         self.notes.append('nested-ensemble stream, cases evaluated per shape: ' + ', '.join(f'{f}={n}' for f, n in counts.items()))
         self.notes.append(f'C01 bridge: segments of {getattr(self, "_bridge_count", 0)} real compositions compared with toSegment of the model')
+        self.notes.append(f'multi-output stream: {getattr(self, "_branch_count", 0)} expressions with a multi-output worker '
+                          '(alone / in scopes and bases of ensembles) evaluated against the oracle and the copy check')
+        if getattr(self, '_branch_count', 0) < 30:
+            raise fw.MachineryError('generator did not reach operators with multi-output workers')
         thin = [f for f, n in counts.items() if n < 8]
         if thin:
             raise fw.MachineryError(f'generator did not reach the shapes {thin} (nested ensembles / debug / label operators in ensembles)')
@@ -850,7 +976,7 @@ class C03(fw.Check):
             if v.signature in done:
                 continue
             done.add(v.signature)
-            if isinstance(v.witness, dict) and 'expr' in v.witness and v.signature.startswith(('coherence-', 'expansions-', 'exception-')):
+            if isinstance(v.witness, dict) and 'expr' in v.witness and v.signature.startswith(('coherence-', 'expansions-', 'exception-', 'copy-')):
                 small = self._shrink(v.witness['expr'], v.signature)
                 f = self._fails(small)
                 detail = {'impl': str(f[1])[:500], 'spec': str(f[2])[:500]} if f else v.detail
@@ -905,6 +1031,8 @@ class C03(fw.Check):
         for part in ('train', 'apply', 'states'):
             if real[part] != spec[part]:
                 return 'coherence-' + part, real[part], spec[part]
+        if real.get('copy'):
+            return 'copy-topology', real['copy'], 'the edges of the original'
         ind = real['indep']
         if ind['shared_nodes'] or ind['shared_groups']:
             return 'expansions-share', ind, None
